@@ -1,4 +1,5 @@
 import PhononModel.Lemmas.SymmetrizeCompact
+import PhononModel.Lemmas.GroupAverage
 import Mathlib.Tactic.FinCases
 import Mathlib.Tactic.NormNum
 /-!
@@ -113,6 +114,41 @@ theorem compactSym_idempotent {np ns nt : Nat} (hns : 0 < ns) (T : CTables np ns
   rw [← compress_expand h (compactSym T L' (compactSym T (L+1) Φc)), compact_eq_full T hwf,
     compact_eq_full T hwf, fullSym_idempotent hns, ← compact_eq_full T hwf, compress_expand h]
 
+/-! ### space-group average (`set_tensor_symmetry_PJ`) is a projection -/
+
+section PJ
+variable [DecidableEq K]
+
+/-- invariance of a force-constant array under every listed operation -/
+def GroupInvariant {N n : Nat} (perm : Fin N → Fin n → Fin n) (C Ci : Fin N → Fin 3 → Fin 3 → K) (Φ : FC n K) : Prop :=
+  ∀ g i j k l, (∑ a, ∑ b, C g k a * Φ (perm g i) (perm g j) a b * Ci g b l) = Φ i j k l
+
+/-- output of the group average is invariant under every operation of the (closed) list -/
+theorem pj_output_invariant {N n : Nat} (hN : 0 < N) (perm : Fin N → Fin n → Fin n) (C Ci : Fin N → Fin 3 → Fin 3 → K)
+    (mul : Fin N → Fin N → Fin N) (hwf : pjWf perm C Ci mul = true) (Φ : FC n K) :
+    GroupInvariant perm C Ci (pjAverage perm C Ci Φ) :=
+  fun g i j k l => pj_act hN (pjWf_sound perm C Ci mul hwf) Φ g i j k l
+
+/-- invariant input is returned unchanged -/
+theorem pj_fixes_invariant {N n : Nat} (hN : 0 < N) (perm : Fin N → Fin n → Fin n) (C Ci : Fin N → Fin 3 → Fin 3 → K)
+    (Φ : FC n K) (h : GroupInvariant perm C Ci Φ) : pjAverage perm C Ci Φ = Φ := by
+  have hN' : (N : K) ≠ 0 := by exact_mod_cast hN.ne'
+  funext i j k l
+  rw [pjAverage_apply]
+  have : ∀ g : Fin N, (∑ a, ∑ b, C g k a * Φ (perm g i) (perm g j) a b * Ci g b l) = Φ i j k l :=
+    fun g => h g i j k l
+  rw [Finset.sum_congr rfl (fun g _ => this g)]
+  simp only [Finset.sum_const, Finset.card_univ, Fintype.card_fin, nsmul_eq_mul]
+  field_simp
+
+/-- applying the average again changes nothing -/
+theorem pj_idempotent {N n : Nat} (hN : 0 < N) (perm : Fin N → Fin n → Fin n) (C Ci : Fin N → Fin 3 → Fin 3 → K)
+    (mul : Fin N → Fin N → Fin N) (hwf : pjWf perm C Ci mul = true) (Φ : FC n K) :
+    pjAverage perm C Ci (pjAverage perm C Ci Φ) = pjAverage perm C Ci Φ :=
+  pj_fixes_invariant hN perm C Ci _ (pj_output_invariant hN perm C Ci mul hwf Φ)
+
+end PJ
+
 /-! ### the driver's staged evaluators compute exactly the model -/
 
 theorem iter_stage_spec {β γ : Type} (th : γ → β) (f : β → β) (g : γ → γ) (h : ∀ A, th (g A) = f (th A)) :
@@ -178,6 +214,9 @@ end PhononModel.C07
 #print axioms PhononModel.C07.full_compact_full
 #print axioms PhononModel.C07.expanded_is_periodic
 #print axioms PhononModel.C07.compactSym_idempotent
+#print axioms PhononModel.C07.pj_output_invariant
+#print axioms PhononModel.C07.pj_fixes_invariant
+#print axioms PhononModel.C07.pj_idempotent
 #print axioms PhononModel.C07.fullSymF_spec
 #print axioms PhononModel.C07.pyFullSymF_spec
 #print axioms PhononModel.C07.compactSymF_spec
